@@ -6,6 +6,7 @@ import (
 	"go/parser"
 	"go/token"
 	"path/filepath"
+	"sort"
 	"strconv"
 	"strings"
 	"sync"
@@ -34,6 +35,11 @@ var Dict = func() [][]byte {
 		{0xff}, {0xff, 0xff, 0xff, 0xff}, {0x01}, {0x00, 0x00}, {0x80, 0x00}, {0x7f, 0xff, 0xff, 0xff, 0xff}, {0x05, 0x00}, {0x30, 0x00}, {0x30, 0x03, 0x02, 0x01, 0x00}, {0x0c, 0x00},
 		{10, 0, 0, 1}, {127, 0, 0, 1}, {8, 8, 8, 8}, {0, 0, 0, 0}, {255, 255, 255, 255}, bytes.Repeat([]byte{0}, 16), append(bytes.Repeat([]byte{0}, 15), 1), {10, 0, 0, 0, 255, 0, 0, 0}, {1, 2, 3},
 		[]byte("VATDE-123456789"), []byte("NTRUS-12345"), []byte("PSDDE-BAFIN-123"), []byte("VATDE"), []byte("LEIXG-5299001234567890ABCD"), []byte("GOVUS+CA-1"),
+		[]byte("https://:443"), []byte("https://:443/x"), []byte("https://@/"), []byte("https://u:p@:80/"), []byte("https://[::1]"), []byte("https://example.com:/"), []byte("https://example.com:99999/"),
+		[]byte("https://%41.com/"), []byte("https:///path"), []byte("https:"), []byte("HTTPS://EXAMPLE.COM"), []byte("http://example.com./"), []byte("https://xn--/"), []byte("https://*.example.com/"),
+		[]byte("https://abcdefghijklmnop.onion"), []byte("http://abcdefghijklmnop.onion:80/"), []byte("ldaps://[fe80::1%25eth0]/"), []byte("file:///etc/passwd"), []byte("data:,x"), []byte("?"), []byte("#"),
+		[]byte("a@xn--.com"), []byte("a@[127.0.0.1]"), []byte("\"a b\"@example.com"), []byte("a@b@c.com"), []byte("a@.com"), []byte("@example.com"), []byte(".example.com@"),
+		[]byte("Private Organization"), []byte("Government Entity"), []byte("private organization"), []byte("V1.0, Clause 5.(b)"), []byte("V1.0, Clause 5.(x)"),
 		bytes.Repeat([]byte("a"), 65), bytes.Repeat([]byte("a"), 129), bytes.Repeat([]byte("b"), 300), bytes.Repeat([]byte{0xC3, 0xA9}, 40), bytes.Repeat([]byte("x"), 32769),
 	}
 	return d
@@ -53,20 +59,50 @@ var (
 // a few scope OIDs), harvested with go/parser at run time.
 func OIDDict() [][]byte {
 	oidOnce.Do(func() {
+		seen := map[string]bool{}
 		add := func(arcs []int) {
-			if len(arcs) >= 2 {
-				oidDict = append(oidDict, dt.OID(arcs...).Content)
+			if len(arcs) >= 2 && arcs[0] <= 2 && (arcs[0] == 2 || arcs[1] < 40) {
+				for _, a := range arcs {
+					if a < 0 {
+						return
+					}
+				}
+				c := dt.OID(arcs...).Content
+				if !seen[string(c)] && len(c) <= 32 {
+					seen[string(c)] = true
+					oidDict = append(oidDict, c)
+				}
 			}
 		}
 		fset := token.NewFileSet()
-		for _, fn := range []string{"oid.go", "qc_stmt.go", "ev.go"} {
-			af, err := parser.ParseFile(fset, filepath.Join(RepoV3(), "util", fn), nil, 0)
+		files, _ := filepath.Glob(filepath.Join(RepoV3(), "util", "*.go"))
+		more, _ := filepath.Glob(filepath.Join(RepoV3(), "lints", "*", "*.go"))
+		files = append(files, more...)
+		sort.Strings(files)
+		for _, fn := range files {
+			if strings.HasSuffix(fn, "_test.go") || strings.HasSuffix(fn, "gtld_map.go") {
+				continue
+			}
+			af, err := parser.ParseFile(fset, fn, nil, 0)
 			if err != nil {
 				continue
 			}
 			ast.Inspect(af, func(n ast.Node) bool {
 				cl, ok := n.(*ast.CompositeLit)
 				if !ok {
+					return true
+				}
+				// only literals typed as an object identifier (asn1.ObjectIdentifier{...} or []int{...})
+				typ := ""
+				switch tt := cl.Type.(type) {
+				case *ast.SelectorExpr:
+					typ = tt.Sel.Name
+				case *ast.ArrayType:
+					if id, ok := tt.Elt.(*ast.Ident); ok {
+						typ = "[]" + id.Name
+					}
+				}
+				if typ != "ObjectIdentifier" && typ != "[]int" {
 					return true
 				}
 				var arcs []int
@@ -91,8 +127,119 @@ func OIDDict() [][]byte {
 			{2, 23, 140, 1, 3}, {2, 23, 140, 1, 4, 1}, {2, 5, 29, 32, 0}, {1, 2, 3, 4}} {
 			add(o)
 		}
+		for _, o := range WellKnownOIDs {
+			add(o)
+		}
 	})
 	return oidDict
+}
+
+// OIDFamilyMode narrows the per-leaf OID choices of the deterministic edit table to
+// the family of the OID that is there now (algorithms, curves, hashes, attribute
+// types, extensions, key purposes, access methods, QC statements, policies/other)
+// plus two members of every other family. The quick tier's sweeps use it; the
+// thorough tier enumerates the whole dictionary on every OID leaf.
+var OIDFamilyMode = false
+
+func hasPrefix(a []int, p ...int) bool {
+	if len(a) < len(p) {
+		return false
+	}
+	for i := range p {
+		if a[i] != p[i] {
+			return false
+		}
+	}
+	return true
+}
+
+func oidFamily(content []byte) int {
+	a := dt.DecodeOID(content)
+	switch {
+	case hasPrefix(a, 1, 2, 840, 10045, 3), hasPrefix(a, 1, 3, 132, 0), hasPrefix(a, 1, 3, 36, 3, 3, 2, 8):
+		return 1 // curves
+	case hasPrefix(a, 1, 2, 840, 113549, 1, 1), hasPrefix(a, 1, 2, 840, 10040, 4), hasPrefix(a, 1, 2, 840, 10045), hasPrefix(a, 2, 16, 840, 1, 101, 3, 4, 3),
+		hasPrefix(a, 1, 3, 101), hasPrefix(a, 1, 3, 14, 3, 2, 29), hasPrefix(a, 1, 3, 14, 3, 2, 27), hasPrefix(a, 1, 2, 840, 10046), hasPrefix(a, 1, 3, 132, 1):
+		return 0 // algorithms
+	case hasPrefix(a, 2, 16, 840, 1, 101, 3, 4, 2), hasPrefix(a, 1, 3, 14, 3, 2, 26), hasPrefix(a, 1, 2, 840, 113549, 2):
+		return 2 // hashes
+	case hasPrefix(a, 2, 5, 4), hasPrefix(a, 1, 2, 840, 113549, 1, 9), hasPrefix(a, 0, 9, 2342), hasPrefix(a, 1, 3, 6, 1, 4, 1, 311, 60, 2, 1):
+		return 3 // attribute types
+	case hasPrefix(a, 2, 5, 29, 37, 0), hasPrefix(a, 1, 3, 6, 1, 5, 5, 7, 3):
+		return 5 // key purposes
+	case hasPrefix(a, 2, 5, 29, 32, 0):
+		return 8
+	case hasPrefix(a, 2, 5, 29), hasPrefix(a, 1, 3, 6, 1, 5, 5, 7, 1), hasPrefix(a, 1, 3, 6, 1, 4, 1, 11129, 2, 4), hasPrefix(a, 2, 23, 140, 1, 31), hasPrefix(a, 2, 23, 140, 3):
+		return 4 // extensions
+	case hasPrefix(a, 1, 3, 6, 1, 5, 5, 7, 48), hasPrefix(a, 1, 3, 6, 1, 5, 5, 7, 2):
+		return 6 // access methods, qualifiers
+	case hasPrefix(a, 0, 4, 0), hasPrefix(a, 1, 3, 6, 1, 5, 5, 7, 11):
+		return 7 // QC statements
+	}
+	return 8 // policies and everything else
+}
+
+var (
+	famOnce sync.Once
+	famList [9][][]byte
+	famPick [9][][]byte
+)
+
+func oidChoices(cur []byte) [][]byte {
+	d := OIDDict()
+	if !OIDFamilyMode {
+		return d
+	}
+	famOnce.Do(func() {
+		for _, c := range d {
+			f := oidFamily(c)
+			famList[f] = append(famList[f], c)
+		}
+		for f := range famPick {
+			famPick[f] = append([][]byte{}, famList[f]...)
+			for g := range famList {
+				if g != f {
+					famPick[f] = append(famPick[f], famList[g][:min(2, len(famList[g]))]...)
+				}
+			}
+		}
+	})
+	return famPick[oidFamily(cur)]
+}
+
+// WellKnownOIDs: algorithm, key, curve, hash, attribute-type and extension
+// identifiers that the parsers (zcrypto, x/crypto) distinguish - so that an OID
+// leaf can be turned into every value that changes what a lint is handed.
+var WellKnownOIDs = [][]int{
+	// signature algorithms
+	{1, 2, 840, 113549, 1, 1, 2}, {1, 2, 840, 113549, 1, 1, 4}, {1, 2, 840, 113549, 1, 1, 5}, {1, 2, 840, 113549, 1, 1, 11}, {1, 2, 840, 113549, 1, 1, 12}, {1, 2, 840, 113549, 1, 1, 13},
+	{1, 2, 840, 113549, 1, 1, 14}, {1, 2, 840, 113549, 1, 1, 10}, {1, 2, 840, 113549, 1, 1, 7}, {1, 2, 840, 113549, 1, 1, 8}, {1, 2, 840, 113549, 1, 1, 9},
+	{1, 2, 840, 10040, 4, 3}, {2, 16, 840, 1, 101, 3, 4, 3, 2}, {2, 16, 840, 1, 101, 3, 4, 3, 1},
+	{1, 2, 840, 10045, 4, 1}, {1, 2, 840, 10045, 4, 3, 1}, {1, 2, 840, 10045, 4, 3, 2}, {1, 2, 840, 10045, 4, 3, 3}, {1, 2, 840, 10045, 4, 3, 4},
+	{1, 3, 101, 112}, {1, 3, 101, 113}, {1, 3, 101, 110}, {1, 3, 101, 111}, {1, 3, 14, 3, 2, 29}, {1, 3, 14, 3, 2, 27}, {1, 2, 643, 2, 2, 3}, {1, 2, 156, 10197, 1, 501},
+	// public key algorithms and curves
+	{1, 2, 840, 113549, 1, 1, 1}, {1, 2, 840, 10040, 4, 1}, {1, 2, 840, 10045, 2, 1}, {1, 2, 840, 10046, 2, 1}, {1, 3, 132, 1, 12},
+	{1, 2, 840, 10045, 3, 1, 7}, {1, 3, 132, 0, 33}, {1, 3, 132, 0, 34}, {1, 3, 132, 0, 35}, {1, 3, 132, 0, 10}, {1, 2, 840, 10045, 3, 1, 1}, {1, 3, 36, 3, 3, 2, 8, 1, 1, 7},
+	// hashes, MGF1
+	{1, 3, 14, 3, 2, 26}, {2, 16, 840, 1, 101, 3, 4, 2, 1}, {2, 16, 840, 1, 101, 3, 4, 2, 2}, {2, 16, 840, 1, 101, 3, 4, 2, 3}, {2, 16, 840, 1, 101, 3, 4, 2, 4}, {1, 2, 840, 113549, 2, 5},
+	// attribute types
+	{2, 5, 4, 3}, {2, 5, 4, 4}, {2, 5, 4, 5}, {2, 5, 4, 6}, {2, 5, 4, 7}, {2, 5, 4, 8}, {2, 5, 4, 9}, {2, 5, 4, 10}, {2, 5, 4, 11}, {2, 5, 4, 12}, {2, 5, 4, 13}, {2, 5, 4, 15}, {2, 5, 4, 16}, {2, 5, 4, 17},
+	{2, 5, 4, 41}, {2, 5, 4, 42}, {2, 5, 4, 43}, {2, 5, 4, 44}, {2, 5, 4, 45}, {2, 5, 4, 46}, {2, 5, 4, 65}, {2, 5, 4, 97}, {2, 5, 4, 20}, {2, 5, 4, 18},
+	{1, 2, 840, 113549, 1, 9, 1}, {0, 9, 2342, 19200300, 100, 1, 25}, {0, 9, 2342, 19200300, 100, 1, 1}, {1, 3, 6, 1, 4, 1, 311, 60, 2, 1, 1}, {1, 3, 6, 1, 4, 1, 311, 60, 2, 1, 2}, {1, 3, 6, 1, 4, 1, 311, 60, 2, 1, 3},
+	// extensions
+	{2, 5, 29, 9}, {2, 5, 29, 14}, {2, 5, 29, 15}, {2, 5, 29, 16}, {2, 5, 29, 17}, {2, 5, 29, 18}, {2, 5, 29, 19}, {2, 5, 29, 20}, {2, 5, 29, 21}, {2, 5, 29, 23}, {2, 5, 29, 24}, {2, 5, 29, 27}, {2, 5, 29, 28},
+	{2, 5, 29, 29}, {2, 5, 29, 30}, {2, 5, 29, 31}, {2, 5, 29, 32}, {2, 5, 29, 33}, {2, 5, 29, 35}, {2, 5, 29, 36}, {2, 5, 29, 37}, {2, 5, 29, 46}, {2, 5, 29, 54}, {2, 5, 29, 56},
+	{1, 3, 6, 1, 5, 5, 7, 1, 1}, {1, 3, 6, 1, 5, 5, 7, 1, 3}, {1, 3, 6, 1, 5, 5, 7, 1, 11}, {1, 3, 6, 1, 5, 5, 7, 1, 24}, {1, 3, 6, 1, 5, 5, 7, 48, 1}, {1, 3, 6, 1, 5, 5, 7, 48, 2}, {1, 3, 6, 1, 5, 5, 7, 48, 3}, {1, 3, 6, 1, 5, 5, 7, 48, 5},
+	{1, 3, 6, 1, 5, 5, 7, 48, 1, 1}, {1, 3, 6, 1, 5, 5, 7, 48, 1, 2}, {1, 3, 6, 1, 5, 5, 7, 48, 1, 5}, {1, 3, 6, 1, 4, 1, 11129, 2, 4, 2}, {1, 3, 6, 1, 4, 1, 11129, 2, 4, 3}, {1, 3, 6, 1, 4, 1, 11129, 2, 4, 5},
+	{2, 23, 140, 1, 31}, {2, 23, 140, 3, 1}, {2, 16, 840, 1, 113730, 1, 1}, {1, 2, 840, 113533, 7, 65, 0}, {1, 3, 6, 1, 5, 5, 7, 2, 1}, {1, 3, 6, 1, 5, 5, 7, 2, 2},
+	{1, 3, 6, 1, 5, 5, 7, 8, 9}, {1, 3, 6, 1, 5, 5, 7, 8, 7}, {1, 3, 6, 1, 5, 5, 7, 8, 5}, {1, 3, 6, 1, 4, 1, 311, 20, 2, 3}, {1, 3, 6, 1, 5, 2, 2},
+	// key purposes
+	{1, 3, 6, 1, 5, 5, 7, 3, 5}, {1, 3, 6, 1, 5, 5, 7, 3, 6}, {1, 3, 6, 1, 5, 5, 7, 3, 7}, {1, 3, 6, 1, 5, 5, 7, 3, 17}, {1, 3, 6, 1, 4, 1, 311, 10, 3, 3}, {2, 16, 840, 1, 113730, 4, 1}, {1, 3, 6, 1, 4, 1, 311, 20, 2, 2},
+	{1, 3, 6, 1, 4, 1, 11129, 2, 4, 4}, {1, 3, 6, 1, 5, 5, 7, 3, 36}, {1, 3, 6, 1, 5, 5, 7, 3, 31},
+	// policies
+	{2, 23, 140, 1, 1}, {2, 23, 140, 1, 2, 1}, {2, 23, 140, 1, 2, 2}, {2, 23, 140, 1, 2, 3}, {2, 23, 140, 1, 5, 1, 1}, {2, 23, 140, 1, 5, 2, 2}, {2, 23, 140, 1, 5, 3, 3}, {2, 23, 140, 1, 5, 4, 1},
+	{0, 4, 0, 1862, 1, 1}, {0, 4, 0, 1862, 1, 2}, {0, 4, 0, 1862, 1, 3}, {0, 4, 0, 1862, 1, 4}, {0, 4, 0, 1862, 1, 5}, {0, 4, 0, 1862, 1, 6}, {0, 4, 0, 1862, 1, 6, 1}, {0, 4, 0, 1862, 1, 6, 2}, {0, 4, 0, 1862, 1, 6, 3},
+	{0, 4, 0, 19495, 2}, {1, 3, 6, 1, 5, 5, 7, 11, 2}, {0, 4, 0, 194121, 1, 1}, {0, 4, 0, 194121, 1, 2}, {0, 4, 0, 2042, 1, 1},
 }
 
 // Donors are extension / RDN nodes lifted from the corpus for crossover.
@@ -217,21 +364,203 @@ func pickNode(t *rapid.T, lists ...[]*dt.Node) *dt.Node {
 	return nil
 }
 
-// NumLeafEdits is the size of the deterministic single-edit space per leaf.
-var NumLeafEdits = len(Dict) + 3*len(edgeBytes) + 6 + len(stringTags)
+// otherTags are non-string universal tags a leaf can be re-tagged to (content
+// kept): BOOLEAN, INTEGER, BIT STRING, OCTET STRING, NULL, OID, ENUMERATED,
+// UTCTime, GeneralizedTime, GraphicString, GeneralString.
+var otherTags = []uint32{1, 2, 3, 4, 5, 6, 10, 23, 24, 25, 27}
 
-// ApplyLeafEdit applies deterministic edit number k (0 <= k < NumLeafEdits) to
-// a leaf; used by the enumerated single-edit sweep and by the random editor.
+// typedValues replace the whole leaf (tag and content) by a well-formed value of
+// another type - what a decoder hands to a lint as int64 / []byte / bool / nil.
+var typedValues = []struct {
+	tag     uint32
+	content []byte
+	cons    bool
+}{
+	{1, []byte{0xff}, false}, {2, []byte{0x05}, false}, {4, []byte("abc"), false}, {5, nil, false}, {3, []byte{0x00, 0x41}, false},
+	{16, nil, true}, {17, nil, true}, {6, []byte{0x55, 0x04, 0x03}, false}, {10, []byte{0x01}, false}, {23, []byte("200101000000Z"), false},
+}
+
+var intValues = [][]byte{{0}, {1}, {2}, {0xff}, {0x80}, {0x7f}, {0x00, 0x80}, {0x00, 0x00, 0x01}, {0xff, 0xff}, {},
+	{0x7f, 0xff, 0xff, 0xff, 0xff, 0xff, 0xff, 0xff}, {0x00, 0xff, 0xff, 0xff, 0xff, 0xff, 0xff, 0xff, 0xff}, bytes.Repeat([]byte{0x11}, 20),
+	bytes.Repeat([]byte{0x11}, 21), append([]byte{0x00}, bytes.Repeat([]byte{0x91}, 20)...), append([]byte{0x00}, bytes.Repeat([]byte{0x91}, 21)...),
+	bytes.Repeat([]byte{0x81}, 21), bytes.Repeat([]byte{0x22}, 33), bytes.Repeat([]byte{0x33}, 300), {0x0a}, {0x0b}, {0x06}, {0x07}, {0x08}, {0x09}, {0x03}, {0x04}, {0x05}}
+
+var timeValues = []struct {
+	tag uint32
+	s   string
+}{
+	{23, "500101000000Z"}, {23, "491231235959Z"}, {23, "700101000000Z"}, {23, "000101000000Z"}, {23, "3001010000Z"}, {23, "300101000000+0100"}, {23, "300101000000-0500"},
+	{24, "20500101000000Z"}, {24, "20491231235959Z"}, {24, "99991231235959Z"}, {24, "00010101000000Z"}, {24, "20300101000000.5Z"}, {24, "203001010000Z"}, {24, "20300101000000+0100"},
+	{23, ""}, {23, "000000000000Z"}, {24, "19500101000000Z"}, {23, "200229000000Z"}, {23, "210229000000Z"}, {24, "20200101000000"},
+}
+
+var bitValues = [][]byte{{}, {0x00}, {0x07, 0x80}, {0x06, 0x40}, {0x05, 0x20}, {0x04, 0x10}, {0x03, 0x08}, {0x02, 0x04}, {0x01, 0x02}, {0x00, 0x01}, {0x07, 0x00, 0x80}, {0x00, 0x00},
+	{0x00, 0xff}, {0x07, 0xff, 0x80}, {0x00, 0xff, 0xff}, {0x01, 0x06}, {0x05, 0xa0}, {0x00, 0x80, 0x00}, {0x08, 0x80}, {0x07, 0xff}, {0x00, 0x03}, {0x02, 0x84}, {0x01, 0xfe}}
+
+const (
+	lkOther = iota
+	lkOID
+	lkBool
+	lkInt
+	lkTime
+	lkBits
+	lkNull
+)
+
+func leafKind(n *dt.Node) int {
+	if n.Class != 0 {
+		return lkOther
+	}
+	switch n.Tag {
+	case 6:
+		return lkOID
+	case 1:
+		return lkBool
+	case 2, 10:
+		return lkInt
+	case 23, 24:
+		return lkTime
+	case 3:
+		return lkBits
+	case 5:
+		return lkNull
+	}
+	return lkOther
+}
+
+// numGeneric is the size of the generic (string-ish) part of the edit table.
+var numGeneric = len(Dict) + 3*len(edgeBytes) + 6 + len(stringTags) + len(otherTags) + len(typedValues)
+
+// NumLeafEdits is the largest per-leaf edit count (random editors draw below it; an
+// index beyond a leaf's own count wraps around).
+var NumLeafEdits = numGeneric
+
+// LeafEditCount is the size of the deterministic single-edit space of this leaf:
+// the table depends on what the leaf is (OID leaves get the OID dictionary,
+// integers the integer list, ...), every kind also gets the typed replacements.
+func LeafEditCount(n *dt.Node) int {
+	switch leafKind(n) {
+	case lkOID:
+		return len(oidChoices(n.Content)) + 4 + len(typedValues)
+	case lkBool:
+		return 5 + len(typedValues)
+	case lkInt:
+		return len(intValues) + len(typedValues) + 2
+	case lkTime:
+		return len(timeValues) + len(typedValues)
+	case lkBits:
+		return len(bitValues) + len(typedValues) + 2
+	case lkNull:
+		return 2 + len(typedValues)
+	}
+	return numGeneric
+}
+
+func applyTyped(n *dt.Node, k int) string {
+	tv := typedValues[k]
+	n.Class, n.Tag, n.Constructed, n.Wrapped = 0, tv.tag, tv.cons, false
+	if tv.cons {
+		n.Content, n.Children = nil, []*dt.Node{}
+	} else {
+		n.Content, n.Children = append([]byte{}, tv.content...), nil
+	}
+	return "typed"
+}
+
+// ApplyLeafEdit applies deterministic edit number k (0 <= k < LeafEditCount(n);
+// larger k wrap) to a leaf; used by the enumerated single-edit sweeps and by the
+// random editor.
 func ApplyLeafEdit(n *dt.Node, k int) string {
+	cnt := LeafEditCount(n)
+	if cnt <= 0 {
+		return "none"
+	}
+	k %= cnt
+	switch leafKind(n) {
+	case lkOID:
+		d := oidChoices(n.Content)
+		if k < len(d) {
+			n.Content = append([]byte{}, d[k]...)
+			return "oid"
+		}
+		k -= len(d)
+		switch k {
+		case 0:
+			n.Content = []byte{}
+			return "oid-empty"
+		case 1:
+			n.Content = []byte{0x80}
+			return "oid-bad"
+		case 2:
+			// capped: zcrypto's ObjectIdentifier.String() is quadratic in the number of
+			// arcs (a 32 k-arc OID costs ~30 s per certificate) - finite, not a hang,
+			// but it would eat the whole budget.
+			n.Content = bytes.Repeat([]byte{0x2a}, 64)
+			return "oid-long"
+		case 3:
+			if len(n.Content) > 1 {
+				n.Content = append([]byte{}, n.Content[:len(n.Content)-1]...)
+			}
+			return "oid-truncate"
+		}
+		return applyTyped(n, k-4)
+	case lkBool:
+		if k < 5 {
+			n.Content = [][]byte{{0x00}, {0xff}, {0x01}, {}, {0xff, 0xff}}[k]
+			return "bool"
+		}
+		return applyTyped(n, k-5)
+	case lkInt:
+		if k < len(intValues) {
+			n.Content = append([]byte{}, intValues[k]...)
+			return "int"
+		}
+		k -= len(intValues)
+		if k == 0 {
+			n.Tag = 12 - n.Tag // INTEGER <-> ENUMERATED
+			return "int-retag"
+		}
+		if k == 1 { // sign flip of the present value
+			c := append([]byte{}, n.Content...)
+			if len(c) > 0 {
+				c[0] ^= 0x80
+			}
+			n.Content = c
+			return "int-sign"
+		}
+		return applyTyped(n, k-2)
+	case lkTime:
+		if k < len(timeValues) {
+			n.Tag, n.Content = timeValues[k].tag, []byte(timeValues[k].s)
+			return "time"
+		}
+		return applyTyped(n, k-len(timeValues))
+	case lkBits:
+		if k < len(bitValues) {
+			n.Content = append([]byte{}, bitValues[k]...)
+			return "bits"
+		}
+		k -= len(bitValues)
+		if k < 2 {
+			c := append([]byte{}, n.Content...)
+			if k == 0 && len(c) > 1 {
+				c = c[:len(c)-1]
+			} else {
+				c = append(c, 0x00)
+			}
+			n.Content = c
+			return "bits-len"
+		}
+		return applyTyped(n, k-2)
+	case lkNull:
+		if k < 2 {
+			n.Content = [][]byte{{0x00}, {0x05, 0x00}}[k]
+			return "null"
+		}
+		return applyTyped(n, k-2)
+	}
 	if k < len(Dict) {
 		n.Content = append([]byte{}, Dict[k]...)
-		// OBJECT IDENTIFIER leaves are capped: zcrypto's ObjectIdentifier.String()
-		// is quadratic in the number of arcs (a 32 k-arc OID costs ~30 s per
-		// certificate through every IsEV / IsCodeSigning call) - finite, so not a
-		// hang, but it would eat the whole budget.
-		if n.Class == 0 && n.Tag == 6 && len(n.Content) > 64 {
-			n.Content = n.Content[:64]
-		}
 		return "dict"
 	}
 	k -= len(Dict)
@@ -273,10 +602,18 @@ func ApplyLeafEdit(n *dt.Node, k int) string {
 		return "append"
 	}
 	k -= 6
-	if n.Class == 0 {
-		n.Tag = stringTags[k%len(stringTags)]
+	if k < len(stringTags) {
+		if n.Class == 0 {
+			n.Tag = stringTags[k]
+		}
+		return "retag"
 	}
-	return "retag"
+	k -= len(stringTags)
+	if k < len(otherTags) {
+		n.Class, n.Tag = 0, otherTags[k]
+		return "retag-other"
+	}
+	return applyTyped(n, k-len(otherTags))
 }
 
 // RandomEdit performs one rapid-drawn edit on the tree (in place) and returns
@@ -290,7 +627,7 @@ func RandomEdit(t *rapid.T, root *dt.Node) string {
 		if n == nil {
 			return "none"
 		}
-		return "leaf-" + ApplyLeafEdit(n, rapid.IntRange(0, NumLeafEdits-1).Draw(t, "k"))
+		return "leaf-" + ApplyLeafEdit(n, rapid.IntRange(0, LeafEditCount(n)-1).Draw(t, "k"))
 	case op < 52: // random bytes
 		n := pickNode(t, extL, nameL, otherL)
 		if n == nil {
